@@ -70,7 +70,7 @@ DevModAnyRes == [NoDev EXCEPT !.modAnyRes = TRUE]
 \* what the tree currently does: the open findings switched on (known_findings.d)
 DevVersionInKey == [NoDev EXCEPT !.versionInKey = TRUE]
 DevF32 == [NoDev EXCEPT !.fragIdOrder = TRUE]
-DevAsIs == [NoDev EXCEPT !.firstFragUnshifted = TRUE, !.treeEdges = TRUE, !.dedupKey = TRUE, !.fragIdOrder = TRUE]
+DevAsIs == [NoDev EXCEPT !.firstFragUnshifted = TRUE, !.dedupKey = TRUE]       \* F14, F30 (F31, F32 repaired: a812f9b, 8d129a5)
 
 ProteinNames == {"GLY", "ALA", "CYS", "VAL", "LEU", "ILE", "MET", "PRO", "HYP", "ASN", "GLN", "ASP", "ASP0", "GLU", "GLU0",
                  "THR", "SER", "LYS", "LYS0", "ARG", "ARG0", "HIS", "HISH", "PHE", "TYR", "TRP"}
@@ -304,7 +304,7 @@ Init == /\ inp \in Inputs
         /\ molN = 0 /\ err = "" /\ fired = {}
 
 (* ---- match_nodes_to_blocks ---- *)
-\* depth-first search trees of the residue graph (finding F31: only the tree edges of nx.dfs_edges are looked at)
+\* depth-first search trees of the residue graph (finding F31, repaired a812f9b: only the tree edges of nx.dfs_edges were looked at)
 Anc(T, r, u, v) == u = v \/ u = r \/ v \notin Reach({e \in T : u \notin e}, {r})
 DfsTrees(I) == {T \in SUBSET GE(I) : /\ Cardinality(T) = I.n - 1
                                       /\ Reach(T, {1}) = Pos(I)
@@ -332,7 +332,7 @@ MatchWith(fe, perm, co) ==
              /\ slice' = [i \in Pos(I) |-> IF i \in fr THEN sl(i) ELSE <<i>>]
              /\ fid' = [i \in Pos(I) |-> IF i \in fr THEN before(i) + ((IdxOf(seqOf(i), i) - 1) \div NRes(Blk(I, i))) + 1 ELSE 0]
              /\ err' = "" /\ pc' = "tag"
-\* iteration orders of the fragment components: residue-id order of their first residue, or (finding F32) any order -
+\* iteration orders of the fragment components: residue-id order of their first residue, or (finding F32, repaired) any order -
 \* nx.connected_components follows the insertion order of the nodes
 CompOrders(fe) ==
   LET cs == {Reach(fe, {i}) : i \in {x \in Pos(inp) : IsFrag(inp, x)}} IN
@@ -377,7 +377,7 @@ AddBlock ==
          ofs == IF Dev.offByOne /\ base > 0 THEN base - 1 ELSE base
      IN IF r \in added
         THEN \* the block copy of this fragment is already merged: pick this residue's atoms out of the stored correspondence
-             \* (finding F32: the correspondences are stored in merge order but looked up by fragment number)
+             \* (finding F32, repaired 8d129a5: the correspondences were stored in merge order but looked up by fragment number)
              IF Dev.fragIdOrder /\ fid[r] > Len(clist)
              THEN /\ err' = "fragindex" /\ fired' = fired \cup {"F32"}
                   /\ UNCHANGED <<atoms, inters, medges, gattr, added, cbase, clist, molN>>
